@@ -232,6 +232,61 @@ fn totality(rep: &mut Report, thorough: bool) {
             jobs.push((bi, m));
         }
     }
+    // consistently re-framed DER: every length field is recomputed, so the structure is well-formed
+    // and the parser's own shape checks (not the DER decoder) are what must refuse it
+    fn tlv(tag: u8, content: &[u8]) -> Vec<u8> {
+        let mut v = vec![tag];
+        if content.len() < 128 {
+            v.push(content.len() as u8);
+        } else {
+            v.push(0x81);
+            v.push(content.len() as u8);
+        }
+        v.extend_from_slice(content);
+        v
+    }
+    let key: Vec<u8> = seed.to_vec();
+    let oids: Vec<Vec<u8>> = vec![vec![0x2b, 0x65, 0x6e], vec![0x2b, 0x65, 0x70], vec![0x2b, 0x65, 0x6f], vec![], vec![0x2b], vec![0x2a, 0x86, 0x48, 0xce, 0x3d, 0x02, 0x01]];
+    let versions: Vec<Vec<u8>> = vec![vec![0], vec![], vec![1], vec![0, 0], vec![0xff]];
+    let mut inners: Vec<Vec<u8>> = Vec::new();
+    let full: Vec<u8> = [vec![0x04, 0x20], key.clone()].concat();
+    for n in 0..=full.len() {
+        inners.push(full[..n].to_vec());
+    }
+    for l in [0u8, 1, 31, 33, 0x7f, 0x80, 0xff] {
+        for dl in [0usize, 1, 31, 32, 33] {
+            inners.push([vec![0x04, l], key.iter().cycle().take(dl).copied().collect()].concat());
+        }
+    }
+    for t in [0x03u8, 0x05, 0x30] {
+        inners.push([vec![t, 0x20], key.clone()].concat());
+    }
+    for oid in &oids {
+        for ver in &versions {
+            for inner in &inners {
+                // keep the product small: full product for the two real OIDs with the normal version
+                if !((oid.len() == 3 && oid[2] != 0x6f && ver == &vec![0u8]) || inner == &full) {
+                    continue;
+                }
+                let alg = tlv(0x30, &tlv(0x06, oid));
+                let body = [tlv(0x02, ver), alg.clone(), tlv(0x04, inner)].concat();
+                jobs.push((0, tlv(0x30, &body)));
+                // wrong outer tag, extra trailing element inside the sequence
+                jobs.push((0, tlv(0x31, &body)));
+                jobs.push((0, tlv(0x30, &[body.clone(), tlv(0x05, &[])].concat())));
+            }
+        }
+        // public keys: BIT STRING = unused-bits byte + data of every length
+        for unused in [0u8, 1, 7, 8, 0xff] {
+            for n in 0..=33usize {
+                let bits = [vec![unused], key.iter().cycle().take(n).copied().collect::<Vec<u8>>()].concat();
+                let body = [tlv(0x30, &tlv(0x06, oid)), tlv(0x03, &bits)].concat();
+                jobs.push((1, tlv(0x30, &body)));
+            }
+            let body = [tlv(0x30, &tlv(0x06, oid)), tlv(0x03, &[])].concat();
+            jobs.push((1, tlv(0x30, &body)));
+        }
+    }
     // random strings (supplementary)
     let mut x = infra::ctx().seed.wrapping_add(0x9E37_79B9_7F4A_7C15);
     let nrand = if thorough { 100_000 } else { 20_000 };
@@ -305,7 +360,7 @@ pub fn run(started: Instant) -> i32 {
         rep,
         Meta {
             level: "exploration",
-            rule: "round trips for seeds {00.., FF.., the 256 one-bit seeds, 64 seeded}: generate_keypair -> DER and PEM -> parse (strict and auto-detecting entry points) -> public = X25519(clamp(seed)) computed with x25519-dalek; Ed25519-form private/public (computed with curve25519-dalek) convert to a matching X25519 pair, also through PEM. PEM: line widths 1..76 x LF/CRLF x leading/trailing blank lines (an accepted variant must give the same key, the standard one must be accepted); 1..4 concatenated PEM public keys. Totality: for the 4 valid DER blobs every truncation, every byte x 256 values, pairs of positions x {00,FF,80}, trailing garbage, OID neighbours, each also PEM-wrapped, plus random strings (supplementary): no panic, raw DER and PEM-wrapped DER agree, an accepted private key is the key material of the input".to_string(),
+            rule: "round trips for seeds {00.., FF.., the 256 one-bit seeds, 64 seeded}: generate_keypair -> DER and PEM -> parse (strict and auto-detecting entry points) -> public = X25519(clamp(seed)) computed with x25519-dalek; Ed25519-form private/public (computed with curve25519-dalek) convert to a matching X25519 pair, also through PEM. PEM: line widths 1..76 x LF/CRLF x leading/trailing blank lines (an accepted variant must give the same key, the standard one must be accepted); 1..4 concatenated PEM public keys. Totality: for the 4 valid DER blobs every truncation, every byte x 256 values, pairs of positions x {00,FF,80}, trailing garbage, OID neighbours, and consistently re-framed DER (every inner payload length 0..34 with all lengths recomputed, wrong inner tags/lengths, versions, 6 OIDs, wrong outer tag, extra element; public BIT STRINGs of every length and unused-bit count), each also PEM-wrapped, plus random strings (supplementary): no panic, raw DER and PEM-wrapped DER agree, an accepted private key is the key material of the input".to_string(),
             exhaustive: true,
             bounds: json!({"seeds": 2 + 256 + 64, "pem_widths": "1..=76", "pair_mutations": if thorough { "all pairs" } else { "pairs with one position in the structural part" }}),
             assumptions: vec!["'all 32-byte seeds' is out of reach of enumeration; the code does not branch on seed bytes".to_string()],
